@@ -50,6 +50,17 @@ pub fn check(t: &Trace<'_>, out: &mut CaseOut) -> bool {
                 let _ = id;
             }
         }
+        // --- a fresh broker session starts with nothing in flight: the whole send window of this
+        // CONNACK is free, no table holds anything
+        if let (Some(op), Some((false, 0, _))) = (ci.connect_op, &ci.connack) {
+            let o = &t.log.ops[op];
+            if let (Outcome::Ok(_), Some(a)) = (&o.outcome, o.snap_after.as_ref()) {
+                out.count("fresh_sessions_inspected", 1);
+                if a.send_quota != a.max_send_quota || !a.tx.retained.is_empty() || !a.tx.release.is_empty() {
+                    out.violations.push(viol("C05", "C05/fresh-session/old-state-still-counts", format!("conn {}: the CONNACK reports no session, yet after connect() the send quota is {} of {} and the session holds retained {:?} / releases {:?}", ci.idx, a.send_quota, a.max_send_quota, a.tx.retained.iter().map(|e| e.packet_id).collect::<Vec<_>>(), a.tx.release.iter().map(|e| e.packet_id).collect::<Vec<_>>())));
+                }
+            }
+        }
         // --- connect event mirrors session present
         if let (Some(op), Some((sp, 0, _))) = (ci.connect_op, &ci.connack) {
             match (&t.log.ops[op].outcome, sp) {
